@@ -134,6 +134,36 @@ fn data_edit(rng: &mut Rng, cur: &Program) -> Option<Program> {
     Some(p)
 }
 
+/// An edit that does not touch the DATA: a REM line inserted at a free number.
+fn rem_edit(rng: &mut Rng, cur: &Program) -> Option<Program> {
+    let mut p = cur.clone();
+    if p.lines.is_empty() {
+        return None;
+    }
+    let at = rng.usize(p.lines.len() + 1);
+    let lo = if at == 0 { -1i32 } else { p.lines[at - 1].num as i32 };
+    let hi = if at < p.lines.len() { p.lines[at].num as i32 } else { 65530 };
+    if hi - lo < 2 {
+        return None;
+    }
+    let num = (lo + 1 + rng.below(((hi - lo - 1) as u64).min(5)) as i32) as u16;
+    p.lines.insert(
+        at,
+        Line {
+            num,
+            stmts: vec![Stmt::Rem("edited".into(), false)],
+        },
+    );
+    crate::gen::map_targets(&mut p, &mut |t| {
+        if let Target::L(i) = t {
+            if *i >= at {
+                *i += 1;
+            }
+        }
+    });
+    Some(p)
+}
+
 fn direct_read(rng: &mut Rng) -> Vec<Stmt> {
     let t = match rng.below(4) {
         0 => LVal::scalar("S$"),
@@ -288,6 +318,7 @@ impl Property for C09 {
         case.session.push(Step::Direct(vec![Stmt::Run(None)]));
         let steps = 1 + rng.below(7) as usize;
         let mut pending: Vec<Step> = vec![];
+        let mut keeps_position = false;
         grow(rng, &mut case, steps, |rng, case, last, _i| {
             let cur = current_program(case);
             let after_edit = matches!(case.session.last(), Some(Step::Edit(_)) | Some(Step::Renum(..)));
@@ -305,8 +336,13 @@ impl Property for C09 {
                     return Some(Step::Direct(vec![Stmt::Data(vec![item])]));
                 }
             }
+            if after_edit && keeps_position {
+                // the edit left the DATA alone: reading goes on where it was
+                keeps_position = false;
+                return Some(Step::Direct(direct_read(rng)));
+            }
             if after_edit {
-                // the position after an edit is only defined again by RUN / CLEAR / RESTORE
+                // the position after an edit of the DATA is only defined again by RUN / CLEAR / RESTORE
                 return Some(Step::Direct(match rng.below(4) {
                     0 => vec![Stmt::Clear],
                     1 => vec![Stmt::Restore(None)],
@@ -340,6 +376,13 @@ impl Property for C09 {
                         _ => Step::Direct(vec![Stmt::Run(None)]),
                     }
                 }
+                5 | 6 if rng.pct(35) => match rem_edit(rng, &cur) {
+                    Some(p) => {
+                        keeps_position = true;
+                        Step::Edit(p)
+                    }
+                    None => Step::Direct(vec![Stmt::Run(None)]),
+                },
                 5..=6 => match data_edit(rng, &cur) {
                     Some(p) => Step::Edit(p),
                     None => Step::Direct(vec![Stmt::Run(None)]),
@@ -1254,8 +1297,8 @@ impl Property for C17 {
 pub struct C06;
 
 const SCALARS_SUFFIXED: &[&str] = &["A%", "A!", "A#", "A$", "Q%", "Q$", "X1%", "X1$"];
-const SCALARS_PLAIN: &[&str] = &["B", "F", "FA", "X", "X2", "X22", "AB", "ZB"];
-const ARRAYS: &[&str] = &["A%", "A!", "A#", "A$", "B", "X", "X2", "AB"];
+const SCALARS_PLAIN: &[&str] = &["B", "F", "FA", "X", "X2", "X22", "AB", "ZB", "BB", "XX", "BOB"];
+const ARRAYS: &[&str] = &["A%", "A!", "A#", "A$", "B", "X", "X2", "AB", "BB"];
 
 fn c06_value(rng: &mut Rng) -> Expr {
     match rng.below(12) {
@@ -1621,7 +1664,7 @@ impl Property for C06 {
         }
     }
     fn rule(&self) -> &'static str {
-        "one evaluation = a direct-mode session of 3-27 store operations over a universe of names chosen to collide if keys were built carelessly (A% A! A# A$ / B F FA X X2 X22 AB, arrays of 1-3 dimensions, subscripts from {0, 1, bound-1, bound, bound+1, 10, 11, 32767, -1, 1.5, \"x\"}): typed LET incl. failing ones (OVERFLOW, TYPE MISMATCH, STRING TOO LONG, SUBSCRIPT OUT OF RANGE), DIM / second DIM / DIM failing on a bound / ERASE / implicit dimensioning, DEFINT/SNG/DBL/STR on ranges, SWAP same-typed and mixed, FOR over typed variables, INPUT into scalars and elements, MID$ assignment, CLEAR, RUN; after EVERY operation a probe line prints the touched names and a sample of others and is compared with RefBASIC's typed map; (6%) a mixed-type SWAP or another failing store inside a stored program (top level or in a subroutine called from a FOR), RUN, probe of both operands, CONT, probe again: a rejected SWAP must leave both operands unchanged for good; distinct = distinct API/event log fingerprint"
+        "one evaluation = a direct-mode session of 3-27 store operations over a universe of names chosen to collide if keys were built carelessly (A% A! A# A$ / B F FA X X2 X22 AB BB XX BOB, arrays of 1-3 dimensions, subscripts from {0, 1, bound-1, bound, bound+1, 10, 11, 32767, -1, 1.5, \"x\"}): typed LET incl. failing ones (OVERFLOW, TYPE MISMATCH, STRING TOO LONG, SUBSCRIPT OUT OF RANGE), DIM / second DIM / DIM failing on a bound / ERASE / implicit dimensioning, DEFINT/SNG/DBL/STR on ranges, SWAP same-typed and mixed, FOR over typed variables, INPUT into scalars and elements, MID$ assignment, CLEAR, RUN; after EVERY operation a probe line prints the touched names and a sample of others and is compared with RefBASIC's typed map; (6%) a mixed-type SWAP or another failing store inside a stored program (top level or in a subroutine called from a FOR), RUN, probe of both operands, CONT, probe again: a rejected SWAP must leave both operands unchanged for good; distinct = distinct API/event log fingerprint"
     }
     fn assumptions(&self) -> Vec<&'static str> {
         vec![
